@@ -1,12 +1,7 @@
-import AlatorVerif.Driver.Uist
-import AlatorVerif.Driver.Jura
-import AlatorVerif.Driver.Broker
 import AlatorVerif.Driver.Perf
 import AlatorVerif.Driver.Sched
-import AlatorVerif.Driver.Strat
 import AlatorVerif.Driver.Http
 import AlatorVerif.Driver.Srv
-import AlatorVerif.Driver.Cost
 import AlatorVerif.DriverX.Broker
 import AlatorVerif.DriverX.Cost
 import AlatorVerif.DriverX.Jura
